@@ -168,11 +168,14 @@ type rule struct {
 }
 
 var rules = []rule{
-	{"thematic", []string{"-", "_", "*", " ", "\t", "a"}, 7, 9, checkThematic},
-	{"atx", []string{"#", " ", "\t", "a", "\\"}, 7, 10, checkATX},
-	{"setext", []string{"=", "-", " ", "\t", "a"}, 7, 10, checkSetext},
-	{"fence", []string{"`", "~", " ", "a"}, 8, 11, checkFence},
-	{"list", []string{"-", "+", "*", "0", "1", "9", ".", ")", " ", "\t", "a"}, 5, 7, checkList},
+	// each alphabet holds every character the rule distinguishes, one ordinary
+	// character, and white space the rule must NOT treat as a space (form feed;
+	// for fences also no-break space, which Unicode-aware trimming would strip)
+	{"thematic", []string{"-", "_", "*", " ", "\t", "a", "\f"}, 6, 8, checkThematic},
+	{"atx", []string{"#", " ", "\t", "a", "\\", "\f"}, 7, 9, checkATX},
+	{"setext", []string{"=", "-", " ", "\t", "a", "\f"}, 7, 9, checkSetext},
+	{"fence", []string{"`", "~", " ", "a", "\f", "\u00a0", "\t"}, 6, 8, checkFence},
+	{"list", []string{"-", "+", "*", "0", "1", "9", ".", ")", " ", "\t", "a", "\f"}, 5, 6, checkList},
 }
 
 var endings = []string{"", "\n"}
@@ -238,7 +241,7 @@ func lineProp(r rule) func(harness.Case) harness.Result {
 
 // random longer lines for all five rules, with CR / CRLF endings and long digit runs
 func genLine(t *rapid.T) harness.Case {
-	toks := []string{"-", "_", "*", "#", "=", "`", "~", "+", " ", "  ", "\t", "a", "foo", "\\", "0", "1", "9", "123456789", "1234567890", ".", ")", "`x`", "###", "```", "~~~", "---", "é", "\\#", " #", "# "}
+	toks := []string{"-", "_", "*", "#", "=", "`", "~", "+", " ", "  ", "\t", "a", "foo", "\\", "0", "1", "9", "123456789", "1234567890", ".", ")", "`x`", "###", "```", "~~~", "---", "é", "\\#", " #", "# ", "\f", "\v", "\u00a0", "\u2003", "\u3000"}
 	n := rapid.IntRange(1, 30).Draw(t, "n")
 	var sb strings.Builder
 	for i := 0; i < n; i++ {
